@@ -1,164 +1,5 @@
-// C03 (part): construction / assignment / store from values of OTHER arithmetic types (the implicit
-// conversion must be the one the native type performs).  See C03.cc / C03_common.hh.
-#define C03_NO_FORCE_INLINE
-#include "C03_base.hh"
-
-namespace {
-
-// ---- conversions from other arithmetic types ------------------------------------------------------
-template <class T, class S>
-inline bool conv_defined(S s) {
-  if constexpr (std::is_floating_point_v<S> && std::is_integral_v<T>) {
-    // float -> integer is defined only when the truncated value fits
-    if (!(s == s)) return false;
-    constexpr int w = sizeof(T) * 8;
-    if constexpr (std::is_signed_v<T>) return s >= -ldexp(static_cast<S>(1), w - 1) && s < ldexp(static_cast<S>(1), w - 1);
-    else return s > static_cast<S>(-1) && s < ldexp(static_cast<S>(1), w);
-  } else if constexpr (std::is_same_v<S, double> && std::is_same_v<T, float>) {
-    if (s == s && s - s == 0) return s <= static_cast<double>(std::numeric_limits<float>::max()) && s >= static_cast<double>(std::numeric_limits<float>::lowest());
-    return true;
-  } else return true;
-}
-
-template <class S>
-std::vector<S> conv_sources() {
-  std::vector<S> v;
-  if constexpr (std::is_same_v<S, bool>) v = {false, true};
-  else if constexpr (std::is_floating_point_v<S>) {
-    v = {S(0), S(-0.0), S(1), S(-1), S(0.5), S(-0.5), S(1.5), S(-1.5), S(0.999), S(-0.999), S(127), S(128), S(255), S(256), S(-128), S(-129), S(32767), S(32768), S(-32768), S(-32769), S(65535), S(65536),
-        S(2147483647.0), S(2147483648.0), S(-2147483648.0), S(4294967295.0), S(4294967296.0), S(16777217.0), S(9007199254740993.0), S(9223372036854775807.0), S(-9223372036854775808.0),
-        S(18446744073709551615.0), S(1e10), S(-1e10), S(1e-40), S(3.0000001), std::numeric_limits<S>::max(), std::numeric_limits<S>::lowest(), std::numeric_limits<S>::min(),
-        std::numeric_limits<S>::denorm_min(), std::numeric_limits<S>::infinity(), -std::numeric_limits<S>::infinity(), std::numeric_limits<S>::quiet_NaN()};
-  } else {
-    using US = std::make_unsigned_t<S>;
-    constexpr int w = sizeof(S) * 8;
-    for (int k = 0; k <= w; k++)
-      for (int d = -1; d <= 1; d++) {
-        US u = static_cast<US>((k < w ? (static_cast<US>(1) << k) : static_cast<US>(0)) + static_cast<US>(d));
-        for (US x : {u, static_cast<US>(US(0) - u)}) {
-          S s = static_cast<S>(x);
-          bool seen = false;
-          for (S y : v) seen = seen || y == s;
-          if (!seen) v.push_back(s);
-        }
-      }
-  }
-  return v;
-}
-
-template <class S>
-std::string show_src(S s) {
-  if constexpr (std::is_floating_point_v<S>) return vf::fmt("%.17g", static_cast<double>(s));
-  else if constexpr (std::is_signed_v<S>) return vf::fmt("%lld", static_cast<long long>(s));
-  else return vf::fmt("%llu", static_cast<unsigned long long>(s));
-}
-
-// Source values are carried type-erased so that only conv_exec<W, T, S> (a few instructions) is
-// instantiated per (wrapper, source type); loops and reporting compile once per wrapper type.
-enum SType { ST_BOOL, ST_CHAR, ST_INT8, ST_UINT8, ST_INT16, ST_UINT16, ST_INT, ST_UNSIGNED, ST_INT64, ST_UINT64, ST_FLOAT, ST_DOUBLE, NSTYPES };
-const char* st_name[NSTYPES] = {"bool", "char", "int8_t", "uint8_t", "int16_t", "uint16_t", "int", "unsigned", "int64_t", "uint64_t", "float", "double"};
-struct Src {
-  int st;
-  int64_t i;  // integer source types (uint64_t modulo 2^64)
-  double f;   // float / double sources
-  std::string text;
-};
-template <class S>
-void add_sources(std::vector<Src>& out, int st) {
-  for (S s : conv_sources<S>()) {
-    if constexpr (std::is_floating_point_v<S>) out.push_back({st, 0, static_cast<double>(s), show_src(s)});
-    else out.push_back({st, static_cast<int64_t>(s), 0, show_src(s)});
-  }
-}
-const std::vector<Src>& all_sources() {
-  static std::vector<Src> v;
-  if (v.empty()) {
-    add_sources<bool>(v, ST_BOOL);
-    add_sources<char>(v, ST_CHAR);
-    add_sources<int8_t>(v, ST_INT8);
-    add_sources<uint8_t>(v, ST_UINT8);
-    add_sources<int16_t>(v, ST_INT16);
-    add_sources<uint16_t>(v, ST_UINT16);
-    add_sources<int>(v, ST_INT);
-    add_sources<unsigned>(v, ST_UNSIGNED);
-    add_sources<int64_t>(v, ST_INT64);
-    add_sources<uint64_t>(v, ST_UINT64);
-    add_sources<float>(v, ST_FLOAT);
-    add_sources<double>(v, ST_DOUBLE);
-  }
-  return v;
-}
-
-// false: the conversion S -> T is undefined for this value (nothing executed)
-template <class W, class T, class S>
-bool conv_exec(Cell<W>& c, Order o, int path, S s, T& n) {
-  if (!conv_defined<T, S>(s)) return false;
-  n = T();
-  n = s;  // the native type's implicit conversion
-  install<W, T>(c, o, from_bits<T>(~bits_of(n)));
-  switch (path) {
-    case 0: new (reinterpret_cast<void*>(&c.w)) W(s); break;
-    case 1: c.w = s; break;
-    case 2: base_of(c.w) = s; break;
-    default: c.w.store(s); break;
-  }
-  return true;
-}
-
-template <class W, class T>
-bool conv_dispatch(Cell<W>& c, Order o, int path, const Src& s, T& n) {
-  switch (s.st) {
-    case ST_BOOL: return conv_exec<W, T, bool>(c, o, path, s.i != 0, n);
-    case ST_CHAR: return conv_exec<W, T, char>(c, o, path, static_cast<char>(s.i), n);
-    case ST_INT8: return conv_exec<W, T, int8_t>(c, o, path, static_cast<int8_t>(s.i), n);
-    case ST_UINT8: return conv_exec<W, T, uint8_t>(c, o, path, static_cast<uint8_t>(s.i), n);
-    case ST_INT16: return conv_exec<W, T, int16_t>(c, o, path, static_cast<int16_t>(s.i), n);
-    case ST_UINT16: return conv_exec<W, T, uint16_t>(c, o, path, static_cast<uint16_t>(s.i), n);
-    case ST_INT: return conv_exec<W, T, int>(c, o, path, static_cast<int>(s.i), n);
-    case ST_UNSIGNED: return conv_exec<W, T, unsigned>(c, o, path, static_cast<unsigned>(s.i), n);
-    case ST_INT64: return conv_exec<W, T, int64_t>(c, o, path, s.i, n);
-    case ST_UINT64: return conv_exec<W, T, uint64_t>(c, o, path, static_cast<uint64_t>(s.i), n);
-    case ST_FLOAT: return conv_exec<W, T, float>(c, o, path, static_cast<float>(s.f), n);
-    default: return conv_exec<W, T, double>(c, o, path, s.f, n);
-  }
-}
-
-template <class W, class T>
-void drive_conv_all(vf::Run& r, const char* wname, Order o) {
-  using U = typename UIntFor<sizeof(T)>::type;
-  static const char* how[4] = {"W(s)", "w = s", "converted_endian::operator=(s)", "w.store(s)"};
-  static const char* how_key[4] = {"ctor", "assign", "base_assign", "store"};
-  r.note(std::string("conv ") + wname);
-  Cell<W> c;
-  uint64_t okc[NSTYPES] = {0}, skipped[NSTYPES] = {0};
-  for (const Src& s : all_sources())
-    for (int path = 0; path < 4; path++) {
-      if (!r.take()) continue;
-      if (r.wants_desc()) r.desc(vf::fmt("%s: %s with s = (%s)%s", wname, how[path], st_name[s.st], s.text.c_str()));
-      T n = T();
-      r.poison_errno();
-      if (!conv_dispatch<W, T>(c, o, path, s, n)) {
-        skipped[s.st]++;
-        continue;
-      }
-      U img, want_img = encode_u(n, o);
-      memcpy(&img, reinterpret_cast<const void*>(&c.w), sizeof(T));
-      uint64_t ld = bits_of(c.w.load());
-      r.nontriv();
-      if (c.pre != 0xC3 || c.post != 0x3C || img != want_img || ld != bits_of(n)) {
-        r.fail(std::string(how_key[path]) + ":converted-operand", [&] {
-          return vf::fmt("%s: %s with s = (%s)%s | native T t = s gives %s, bytes [%s] | wrapper: load() %s, bytes [%s], canaries %02X/%02X", wname, how[path], st_name[s.st], s.text.c_str(),
-              show_val<T>(bits_of(n)).c_str(), hexbytes(want_img, sizeof(T)).c_str(), show_val<T>(ld).c_str(), hexbytes(img, sizeof(T)).c_str(), c.pre, c.post);
-        });
-      } else okc[s.st]++;
-    }
-  for (int st = 0; st < NSTYPES; st++) {
-    if (okc[st]) r.hist[std::string(wname) + "/from " + st_name[st] + ":equals native conversion"] += okc[st];
-    if (skipped[st]) r.hist[std::string(wname) + "/from " + st_name[st] + ":conversion undefined (not compared)"] += skipped[st];
-  }
-}
-
-}  // namespace
+// C03 (part): conversions from other arithmetic types (section conv); the machinery is in C03_conv.hh.
+#include "C03_conv.hh"
 
 VF_SECTION(conv, 4, 4, 120) {
 #define X(W, T, O) drive_conv_all<W, T>(r, #W, O);
